@@ -123,3 +123,57 @@ func TestVerifWitnessC11ProducerRewound(t *testing.T) {
 		}
 	}
 }
+
+// C11: a message with a PGP type and no caller-fixed boundary got a fresh random boundary for its PGP layer on
+// every render (the only layer whose boundary was not cached in the Msg)
+func TestVerifWitnessC11PGPBoundaryStable(t *testing.T) {
+	for _, pt := range []PGPType{PGPEncrypt, PGPSignature} {
+		m := NewMsg(WithPGPType(pt))
+		_ = m.From("a@b.c")
+		_ = m.To("d@e.f")
+		m.Subject("s")
+		m.SetDate()
+		m.SetMessageID()
+		m.SetBodyString(TypeTextPlain, "hello")
+		m.AddAlternativeString(TypeTextHTML, "<p>hello</p>")
+		first, second := &bytes.Buffer{}, &bytes.Buffer{}
+		if _, err := m.WriteTo(first); err != nil {
+			t.Fatal(err)
+		}
+		if _, err := m.WriteTo(second); err != nil {
+			t.Fatal(err)
+		}
+		if first.String() != second.String() {
+			t.Errorf("PGP type %d: the second render differs from the first", pt)
+		}
+	}
+}
+
+// C11: a read-seeker that is not at its start when it is attached: the first render carries the rest of it, the
+// producer then rewound to offset 0, so every later render carried the whole content
+func TestVerifWitnessC11ReadSeekerPosition(t *testing.T) {
+	rs := strings.NewReader("HEADER|payload of the attachment")
+	skip := make([]byte, 7)
+	if _, err := rs.Read(skip); err != nil {
+		t.Fatal(err)
+	}
+	m := NewMsg()
+	_ = m.From("a@b.c")
+	_ = m.To("d@e.f")
+	m.Subject("s")
+	m.SetDate()
+	m.SetMessageID()
+	m.SetBodyString(TypeTextPlain, "hello")
+	m.AttachReadSeeker("a.txt", rs, WithFileEncoding(NoEncoding))
+	first, second := &bytes.Buffer{}, &bytes.Buffer{}
+	if _, err := m.WriteTo(first); err != nil {
+		t.Fatal(err)
+	}
+	if _, err := m.WriteTo(second); err != nil {
+		t.Fatal(err)
+	}
+	if first.String() != second.String() {
+		t.Errorf("the second render differs from the first (HEADER| in first: %v, in second: %v)",
+			strings.Contains(first.String(), "HEADER|"), strings.Contains(second.String(), "HEADER|"))
+	}
+}
